@@ -259,6 +259,7 @@ class RealCase:
 		self.variants = dict(variants)
 		self.enabled = enabled
 		self.content_ids: dict[str, int] = {}
+		self.grammars = 0
 		self.proj = tproj.Project(ctx.tmpdir('tranp-c05-'), package=PKG)
 		self.proj.tick = lib.first_project_mtime
 		for m in self.graph:
@@ -313,6 +314,11 @@ class RealCase:
 		if kind == 'clear':
 			self.proj.clear_cache()
 			return 'clear', None
+		if kind == 'grammar':
+			self.grammars += 1
+			name = f'g{self.grammars}.lark'
+			self.proj.set_grammar_copy(name)
+			return f'grammar\t{hx(name)}', None
 		if kind == 'enable':
 			self.enabled = op[1] == '1'
 			return f'enable\t{op[1]}', None
@@ -345,8 +351,10 @@ def next_op(rng: random.Random, case: RealCase, allow_damage: bool, allow_disabl
 		return ['run', '0']
 	if r < 0.74:
 		return ['run', '1']
-	if r < 0.80:
+	if r < 0.79:
 		return ['clear']
+	if r < 0.81 and allow_disable:		# (the flag doubles as "configuration ops allowed")
+		return ['grammar']
 	if r < 0.88 and allow_disable:
 		return ['enable', '0' if case.enabled else '1']
 	listing = case.canonical_listing()
